@@ -28,6 +28,17 @@ def parseObsOp (op : String) : Option Op :=
   | ["limit", l] => some (.limit (nat! l))
   | _ => none
 
+/-- test hook `verif_set_sequence(path, n)`: not an operation of the public API (so not an `Op`);
+sets the sequence number of an existing resource -/
+def setSeq (s : Subject) (path : String) (n : Nat) : Subject :=
+  { s with resources := modifyRes s.resources path (fun r => { r with sequence := n }) }
+
+/-- an operation of the line protocol: a public operation or the test hook -/
+def stepLine (s : Subject) (op : String) : Option Subject :=
+  match words op with
+  | ["seq", p, n] => some (setSeq s (strOfHexUtf8 p) (nat! n))
+  | _ => (parseObsOp op).map (step s)
+
 def dumpSubject (s : Subject) (paths : List String) : String :=
   let parts := paths.map (fun ph =>
     let key := strOfHexUtf8 ph
@@ -45,14 +56,18 @@ def obs (ws : List String) : String :=
   | mode :: pl :: rest =>
     if mode == "run" || mode == "trace" then
       let paths := if pl == "_" then [] else pl.splitOn ","
-      let ops := ((" ".intercalate rest).splitOn ";").filterMap parseObsOp
+      let ops := (" ".intercalate rest).splitOn ";"
       if mode == "run" then
-        dumpSubject (Observe.run ops) paths
+        dumpSubject (ops.foldl (fun s op => (stepLine s op).getD s) Subject.default) paths
       else
         let (_, outs) := ops.foldl (fun (acc : Subject × List String) op =>
-          let s' := step acc.1 op
-          (s', dumpSubject s' paths :: acc.2)) (Subject.default, [])
+          match stepLine acc.1 op with
+          | some s' => (s', dumpSubject s' paths :: acc.2)
+          | none => acc) (Subject.default, [])
         " | ".intercalate outs.reverse
+    else if mode == "soak" then
+      -- n real notification rounds on a fresh observed resource: n mod 2^32 (seqNext iterated)
+      toString ((nat! pl) % 2 ^ 32)
     else if mode == "notif" then
       match ws with
       | [_, mid, tok, seq, pay, con] =>
